@@ -266,7 +266,7 @@ def scenarios(quick):
 def run_scenarios(task):
     cfgs, bound, max_runs = task
     out = {"cov": {"scenarios": 0, "states": 0, "transitions": 0, "schedules": 0, "choice_points": 0, "traces_validated_against_impl": 0,
-                   "scenarios_with_real_choice": 0, "distinct_outcomes_max": 0}, "samples": [], "violations": []}
+                   "scenarios_with_real_choice": 0, "distinct_outcomes_max": 0, "capped": 0, "scenarios_bound2": 0}, "samples": [], "violations": []}
     for cfg in cfgs:
         sc = Scenario(cfg)
         # conformance run: the unmodified engine (no interception) must give the default-order observation
@@ -278,6 +278,8 @@ def run_scenarios(task):
         st = explore(lambda s: sc.run(s), bound, max_runs=max_runs, only_funcs={"step_design", "commit"}, max_perm_items=PERM_ITEMS)
         outs = st["outcomes"]
         out["cov"]["scenarios"] += 1
+        out["cov"]["capped"] += int(st["capped"])
+        out["cov"]["scenarios_bound2"] += int(bound >= 2)
         out["cov"]["schedules"] += st["runs"]
         out["cov"]["states"] += st["runs"]                     # one explored execution = one node of the schedule tree
         out["cov"]["transitions"] += st["choice_points_max"] * st["runs"]
@@ -467,7 +469,15 @@ def cfg_sig(cfg):
 def run(rep):
     cfgs = list(scenarios(rep.quick))
     bound = rep.pick(1, 2)
-    tasks = rotate([(ch, bound, rep.pick(400, 700)) for ch in chunks(cfgs, 6)], rep.seed)
+    CAP1, CAP2 = 2000, 60000
+    if rep.quick:
+        tasks = [(ch, 1, CAP1) for ch in chunks(cfgs, 6)]
+    else:
+        # every scenario with one deviation; every 16th scenario of the quick set with two (about 25 000 schedules each)
+        tasks = [(ch, 2, CAP2) for ch in chunks(list(scenarios(True))[::16], 1)] + [(ch, 1, CAP1) for ch in chunks(cfgs, 6)]
+    tasks = tasks[:len(tasks) - len(tasks) % 1]
+    if rep.quick:
+        tasks = rotate(tasks, rep.seed)
     scripts1 = list(itertools.product(TB_WAITS, TB_ACTS))
     tb3 = list(itertools.product(scripts1, repeat=3)) + list(itertools.product(scripts1, repeat=4))
     for part in pmap(run_tb3, chunks(tb3, 702), rep.procs):
@@ -477,7 +487,7 @@ def run(rep):
         m = part["cov"].pop("distinct_outcomes_max")
         rep.merge(part)
         rep.setcov("distinct_outcomes_max", max(rep.cov.get("distinct_outcomes_max", 0), m))
-    rep.setcov("deviation_bound", bound)
+    rep.setcov("deviation_bound", bound if rep.quick else "1 on every scenario, 2 on scenarios_bound2 of them")
     rep.setcov("rule", "scenario = 2 clocked domains (a posedge, b pos/neg) with coinciding edges + comb fragment in a submodule + (optionally) the guide's "
                "sync- and comb-replacement processes + 1-2 testbenches running every script of length<=2 (3) over {set, get, tick a/b with sample, delay 0/3, "
                "posedge, negedge, changed}; explored: every resolution of the iteration order of the ready-process set, the active-trigger set and the "
